@@ -344,12 +344,13 @@ RULES = {}
 ASSUME = {}
 TRUSTED_EXTRA = {}
 VARIANTS_OF = {
+    "C19": {"quick": ["default", "underscore", "be:idn"], "thorough": ["default", "underscore", "be:idn", "be:idnkit"]},
     "C02": {"quick": ["default", "uchar"], "thorough": ["default", "uchar"]},
     "C03": {"quick": ["default", "uchar"], "thorough": ["default", "uchar"]},
     "C04": {"quick": ["default", "underscore"], "thorough": ["default", "underscore"]},
     "C05": {"quick": ["default", "be:idnkit"], "thorough": ["default", "be:idnkit"]},
     "C09": {"quick": ["default", "ndebug"], "thorough": ["default", "ndebug"]},
-    "C13": {"quick": ["default", "be:idnkit"], "thorough": ["default", "be:idnkit", "be:idn"]},
+    "C13": {"quick": ["default", "be:idnkit", "be:idnkit+extra"], "thorough": ["default", "be:idnkit", "be:idn", "be:idnkit+extra", "be:idn+extra", "extra"]},
     "C15": {"quick": ["default", "be:idn"], "thorough": ["default", "be:idn", "be:idnkit"]},
     "C07": {"quick": ["default", "underscore", "be:idn"], "thorough": ["default", "underscore", "be:idn", "be:idnkit"]},
     "C16": {"quick": ["default", "extra", "be:idnkit+extra"], "thorough": ["default", "extra", "be:idnkit+extra", "be:idn+extra"]},
@@ -1207,12 +1208,81 @@ def c16(ctx):
                     if bad:
                         ctx.S(bad, op=op, variant=v, input=repr(s), impl=cl)
         strs = _all
+    # the record of eav_t.result after each eav_is_email of a history: it describes THAT call (an over-long or otherwise refused address after an
+    # accepted one, the empty address, every kind after every kind), in builds with and without the EAV_EXTRA fields
+    kinds = [b"a@b.com", b"user.name@[192.0.2.1]", b"a@[IPv6:2001:db8::1]", "ж@почта.рф".encode(), b"a@\xff.com", b"a@x.test", b"bad", b"", b"a@b.zz", b"a@b", b"a@-b.com"] + LONG_ADDRS + \
+            [b"a@" + b"b" * n for n in (1080, 1090, 1100, 2200)] + [b"a" * n + b"@b.com" for n in (1089, 1090, 4096)]
+    hs = []
+    for m in MODES:
+        for a in kinds[:6]:
+            for b_ in kinds:
+                hs.append("i;r%d;s;e%s;e%s;e%s;f" % (m, hx(a), hx(b_), hx(a)))
+    for v in ["default", "extra"] + [x for x in ctx.drives if x.startswith("be:")]:
+        hv = hs if not v.startswith("be:") else hs[:: (3 if ctx.tier == "quick" else 1)]
+        hc = check_histories(ctx, "record-history", hv, variant=v)
+        for sc, cl in zip(hv, hc):
+            parts = cl[2:].split(";")
+            for i, kind, st in interpret_history(sc):
+                if kind != "e" or i >= len(parts):
+                    continue
+                f = parts[i].split(" ")
+                if len(f) < 6 or "FAULT" in parts[i]:
+                    continue
+                rc, flags = int(f[3]), f[5]
+                addr = bytes.fromhex(st[3]) if st[3] not in ("", "-") else b""
+                L, D = split_addr(addr)
+                bad = None
+                if flags.count("1") > 1: bad = "more than one of is_ipv4/is_ipv6/is_domain set"
+                elif rc >= 0 and flags.count("1") != 1: bad = "accepted address without exactly one form flag"
+                elif rc < 0 and (-rc) not in (23, 26) and flags != "000": bad = "flag set although the address is refused as syntactically invalid"
+                elif (v == "extra" or v.endswith("+extra")) and len(f) >= 8:
+                    lp, dm = f[6], f[7]
+                    if rc >= 0 and (lp != "=" + hx(L) or dm != "=" + hx(D[1:-1] if D.startswith(b"[") else D)):
+                        bad = "EAV_EXTRA lpart/domain do not reproduce the halves of the accepted address"
+                    elif rc < 0 and (-rc) not in (23, 26) and (lp != "NULL" or dm != "NULL"):
+                        bad = "EAV_EXTRA lpart/domain not NULL for a refused address"
+                if bad:
+                    ctx.S("eav_t.result after eav_is_email: " + bad, op="H " + sc, variant=v, step=i, impl=parts[i])
+    # the record (its TLD class included) is a function of the call's own arguments: the same calls in another order give the same records
+    nb = tld_neighbours(ctx, 200 if ctx.tier == "quick" else 20)
+    for m in ((5321, 6531) if ctx.tier == "quick" else MODES):
+        check_order_independent(ctx, "record-order%d" % m, "default", ["E %d 1 %s" % (m, hx(a)) for a in nb],
+                                "the result record (TLD class in rc) of an address depends on the address validated before it")
 RULES["C16"] = "distinct (mode, tld, address) triples passing basic_email_check; corpora of C01-C10, four modes, tld on/off, builds with and without EAV_EXTRA"
+
+
+def tld_neighbours(ctx, step):
+    """addresses in an order that puts a listed TLD right in front of its proper prefixes and one-letter extensions"""
+    names = [r[0] for r in table_names(ctx)]
+    out = []
+    for n in [b"com", b"museum", b"info", b"org", b"xn--p1ai", b"active"] + names[::step]:
+        out += [b"a@x." + n, b"a@x." + n[:-1], b"a@x." + n[:1], b"a@x." + n, b"a@x." + n + b"x", b"a@x." + n.upper()[:2], b"a@x." + n[:max(1, len(n) // 2)]]
+    return [a for a in out if not a.endswith(b".")]
+
+
+def check_order_independent(ctx, name, variant, ops, what):
+    """each op gives the same line whatever was evaluated before it in the process: the list in order, reversed and shuffled"""
+    fwd = ctx.K(name, variant, ops, nontrivial=lambda op, ln: True)
+    rops = list(reversed(ops))
+    rev = list(reversed(ctx.K(name + "-reversed", variant, rops, nontrivial=lambda op, ln: True)))
+    idx = list(range(len(ops))); ctx.rng.shuffle(idx)
+    shl = ctx.K(name + "-shuffled", variant, [ops[i] for i in idx], nontrivial=lambda op, ln: True)
+    sh = [None] * len(ops)
+    for pos, i in enumerate(idx):
+        sh[i] = shl[pos]
+    for k, (op, a, b, c_) in enumerate(zip(ops, fwd, rev, sh)):
+        if not (a == b == c_):
+            ctx.S(what, op=op, variant=variant, impl=a, previous_op=ops[k - 1] if k else None, same_call_in_reversed_order=b, same_call_in_shuffled_order=c_)
+    return fwd
 
 
 # ===================================================================== histories (C13, C19)
 H_ADDRS = [b"a@b.com", b"a@x.test", b"a@[1.2.3.4]", "ж@почта.рф".encode(), b"a@\xff.com", b'"a b"@b.ru', b"a@b", b"bad",
            b"a@b.co", b"a@x.museum", b"a@x.muse", b"a@x.info", b"a@x.inf", b'"a\tb"@b.com', b"a@ab--cd.com", b"a@x.active", b"a@x.ac", "ж@b.com".encode()]
+# long addresses: valid at the maximum lengths, and invalid ones whose beginning is valid (an object that keeps a buffer between calls has its seams here)
+LONG_ADDRS = [b"a" * 64 + b"@" + gen.long_host(253), b"a" * 60 + b"@" + gen.long_host(190) + b".museum", b"a@" + gen.long_host(250) + b".com", b"a@" + b"b." * 300 + b"com",
+              b"x" * 200 + b"@" + gen.long_host(100), ("ж" * 30 + "@" + ("я" * 40 + ".") * 4 + "рф").encode(), b"a@[IPv6:" + b"1:" * 600 + b"]", b"a@b.com" + b" " * 1200,
+              b"a" * 64 + b"@" + gen.long_host(253)[:-3] + b"zzz"]
 H_MASKS = [760, 8, 2046, 0]
 IDN_RCS = [-100, -101, -102] + list(range(-209, -199)) + list(range(-314, -299)) + [1, 12345, -1]
 
@@ -1431,9 +1501,9 @@ def c13(ctx):
         scripts = scripts[:: 2]
     for n in ([10, 50, 200] if ctx.tier == "quick" else [10, 50, 200, 200, 1000]):
         for _ in range(40 if ctx.tier == "quick" else 400):
-            scripts.append(hg.random_history(n, H_ADDRS + [b"", b"@", b"a@"]))
+            scripts.append(hg.random_history(n, H_ADDRS + [b"", b"@", b"a@"] + (LONG_ADDRS if _ % 3 == 0 else [])))
     # every kind of outcome followed by the empty address and by addresses of the other kinds: each call's record is its own
-    kinds = [b"a@b.com", b"a@[1.2.3.4]", b"a@[IPv6:::1]", "ж@почта.рф".encode(), b"a@\xff.com", b"a@x.test", b"bad", b"", b"a@b.zz"]
+    kinds = [b"a@b.com", b"a@[1.2.3.4]", b"a@[IPv6:::1]", "ж@почта.рф".encode(), b"a@\xff.com", b"a@x.test", b"bad", b"", b"a@b.zz"] + LONG_ADDRS
     for m in MODES:
         for a in kinds:
             for b in kinds:
@@ -1477,6 +1547,26 @@ def c19(ctx):
             scripts.append(hg.random_history(n, H_ADDRS, inject=True))
     scripts = list(dict.fromkeys(scripts))
     check_histories(ctx, "idnfault", scripts)
+    # builds with LABELS_ALLOW_UNDERSCORE: a conversion failure is a failure for every name that went to the converter, '_' or not
+    if "underscore" in ctx.drives:
+        us_addrs = [b"a@my_host.com", b"a@_dmarc.example.org", b"a@a_b", b"a@x_.y_.museum", b"a@b.com", "ж@по_чта.рф".encode(), b"a@_._", b"a@my_host.c_m"]
+        us = []
+        for rc in IDN_RCS[:: (3 if ctx.tier == "quick" else 1)]:
+            for buf in (0, 1):
+                us.append("i;s;" + ";".join("x%d,%d;e%s;m;x0;e%s;m" % (rc, buf, hx(a), hx(a)) for a in us_addrs) + ";f")
+        for _ in range(30 if ctx.tier == "quick" else 300):
+            us.append(hg.random_history(20, us_addrs + H_ADDRS[:4], inject=True))
+        check_histories(ctx, "idnfault-underscore", us, variant="underscore")
+    # two objects failing in turn with different library errors: each keeps ITS message and code until its own next call
+    idn_a = ["ж@почта.рф".encode(), b"a@b.com", "a@例え.テスト".encode()]
+    two = []
+    for r1, r2 in ((-205, -301), (-100, -209), (-304, 12345), (-201, -202)):
+        for a1 in idn_a[:2]:
+            for a2 in idn_a:
+                two.append("i;2i;s;2s;x%d,0;e%s;2x%d,1;2e%s;m;2m;m;2x0;2e%s;m;2m;f;2f" % (r1, hx(a1), r2, hx(a2), hx(a2)))
+                two.append("i;s;x%d,1;e%s;m;2i;2s;2x%d,0;2e%s;2m;m;2f;m;f" % (r1, hx(a1), r2, hx(a2)))
+    for v in ["default"] + [x for x in ctx.drives if x.startswith("be:")]:
+        check_two_objects(ctx, "idnfault-two-objects", two, variant=v)
 RULES["C19"] = "distinct histories with injected IDN failures: every libidn2 error code (and unknown codes) x with/without an output buffer x fault position in runs of 1-6 validations, random multi-fault histories of length 10-50 (200 thorough); LeakSanitizer at exit"
 
 
@@ -1967,7 +2057,7 @@ def c14(ctx):
         elif p.returncode != 0:
             ctx.S("threaded run failed", op="mt %d threads" % nth, rc=p.returncode, stderr=err[-800:])
 RULES["C14"] = "validation calls executed by 2-16 concurrent threads (own eav_t each, shared read-only strings, all modes, tld on/off) under ThreadSanitizer, each compared with the single-threaded outcome; distinct = (thread count, address)"
-VARIANTS_OF["C14"] = {"quick": ["x:tsan", "x:tsan-idnkit"], "thorough": ["x:tsan", "x:tsan-idnkit", "x:tsan-idn"]}
+VARIANTS_OF["C14"] = {"quick": ["x:tsan", "x:tsan-idnkit", "x:tsan-extra"], "thorough": ["x:tsan", "x:tsan-idnkit", "x:tsan-idn", "x:tsan-extra"]}
 TRUSTED_EXTRA["C14"] = ["data races in the compiled code are a runtime fact: ThreadSanitizer (happens-before detector, any conflicting pair it observes, whatever the schedule) covers them; what is proved is schedule-independence of the model whose shared state is read from the object files (objdump: no object in a writable section)"]
 ASSUME["C14"] = ["libidn2 itself is thread-safe (not instrumented)"]
 
@@ -2234,6 +2324,37 @@ def c20(ctx):
             ctx.S("the tool prints more than one verdict per non-comment line", op=op, extra=repr(out[k:k + 3]))
         if len(ctx.samples) < 10 and rng.random() < 0.05:
             ctx.samples.append(dict(file=repr(f[:120]), stdout=repr(p.stdout[:200])))
+    # one verdict per line means the line's OWN verdict: the same line alone in a file gets the same PASS/FAIL as after any other line
+    groups = [[b"a@x.com", b"a@x.co", b"a@x.c", b"a@x.comm"], [b"a@x.museum", b"a@x.muse", b"a@x.m"], [b"a@x.info", b"a@x.inf", b"a@x.i"], [b"a@b.org", b"a@b.or", b"a@b.o"],
+              ["ж@почта.рф".encode(), "ж@почта.р".encode()], [b"a@x.xn--p1ai", b"a@x.xn--p1a", b"a@x.xn"], [b"a@x.active", b"a@x.ac", b"a@x.act", b"a@x.a"],
+              [b'"a b"@b.ru', b"a b@b.ru", b"a@b.r"], [b"a@example.com", b"a@example.co", b"a@xample.com"], [b"a@[1.2.3.4]", b"a@1.2.3.4", b"a@[1.2.3]"]]
+    nbl = [a for a in tld_neighbours(ctx, 400 if ctx.tier == "quick" else 40)]
+    groups.append(nbl)
+    def verdict_heads(stdout):
+        return [ln[:4] for ln in stdout.split(b"\n") if ln.startswith(b"PASS: ") or ln.startswith(b"FAIL: ")]
+    alone = {}
+    for gi, g in enumerate(groups):
+        for ln in dict.fromkeys(g):
+            if ln in alone:
+                continue
+            fn = os.path.join(ctx.scr.dir, "cli_alone.txt")
+            open(fn, "wb").write(ln + b"\n")
+            p = subprocess.run([exe, fn], stdout=subprocess.PIPE, stderr=subprocess.PIPE, env=env)
+            alone[ln] = verdict_heads(p.stdout)
+            ctx.evals += 1
+        for order in (g, list(reversed(g))):
+            fn = os.path.join(ctx.scr.dir, "cli_group.txt")
+            open(fn, "wb").write(b"\n".join(order) + b"\n")
+            p = subprocess.run([exe, fn], stdout=subprocess.PIPE, stderr=subprocess.PIPE, env=env)
+            ctx.evals += 1
+            heads = verdict_heads(p.stdout)
+            ctx.nontrivial.add("group%d:%d" % (gi, len(order)))
+            want = [h for ln in order for h in alone[ln]]
+            if heads != want:
+                k = next((i for i, (a_, b_) in enumerate(zip(heads, want)) if a_ != b_), min(len(heads), len(want)))
+                ctx.S("the verdict the tool prints for a line depends on the lines before it (the same line alone in a file gets another verdict)",
+                      op="cli " + hx(b"\n".join(order[:k + 1]) + b"\n")[:800], line=repr(order[k]) if k < len(order) else None, after=repr(order[k - 1]) if 0 < k <= len(order) else None,
+                      printed=repr(heads[k:k + 1]), alone=repr(want[k:k + 1]))
 RULES["C20"] = "distinct input files: 31 line shapes (empty, blanks, comments, trimming cases, invalid UTF-8, embedded CR, 2-8 KiB lines) x LF/CRLF x final newline x position, random files of 0-12 lines from the address corpora and random bytes; the real binary under ASan+UBSan+LSan"
 VARIANTS_OF["C20"] = {"quick": ["default", "x:cli"], "thorough": ["default", "x:cli"]}
 TRUSTED_EXTRA["C20"] = ["stdio, getline's reallocation and process exit are runtime behaviour observed on the real binary; the trimming and the rendering of a line are modelled (Eav/Cli.lean) and compared with the binary's output"]
